@@ -248,7 +248,28 @@ func TestC08Corpus(t *testing.T) {
 }
 
 func genC08Input(t *rapid.T) (src string, origin string) {
-	switch rapid.SampledFrom([]string{"valid", "prefix", "prefix", "tokmut", "tokmut", "tokmut", "soup", "soup", "bytes", "regex", "regex", "regexprefix", "layout"}).Draw(t, "origin") {
+	switch rapid.SampledFrom([]string{"valid", "prefix", "prefix", "tokmut", "tokmut", "tokmut", "soup", "soup", "bytes", "regex", "regex", "regexprefix", "layout", "unicode", "unicode"}).Draw(t, "origin") {
+	case "unicode":
+		// a valid program or a soup with one or two characters replaced by (or followed
+		// by) non-ASCII digits, letters, blanks and case-folding oddities
+		var base string
+		if rapid.Bool().Draw(t, "ubase") {
+			p, _, _ := GenFullProgram(t, FullOpts{Wide: true, Transforms: true, MaxCmds: 2})
+			base = p.Source()
+		} else {
+			base = GenTokenSoup(t)
+		}
+		rs := []rune(base)
+		for n := rapid.IntRange(1, 2).Draw(t, "nsubst"); n > 0 && len(rs) > 0; n-- {
+			i := rapid.IntRange(0, len(rs)-1).Draw(t, "upos")
+			u := []rune(rapid.SampledFrom(unicodeOddities).Draw(t, "uchar"))
+			if rapid.Bool().Draw(t, "uinsert") {
+				rs = append(rs[:i], append(append([]rune{}, u...), rs[i:]...)...)
+			} else {
+				rs = append(rs[:i], append(append([]rune{}, u...), rs[i+1:]...)...)
+			}
+		}
+		return string(rs), "unicode"
 	case "valid":
 		p, _, _ := GenFullProgram(t, FullOpts{Wide: true, Transforms: true, MaxCmds: 2})
 		return p.Source(), "valid"
@@ -299,6 +320,8 @@ func genC08Input(t *rapid.T) (src string, origin string) {
 		return Layout(toks, GenLayout(t, toks)), "layout"
 	}
 }
+
+var unicodeOddities = []string{"\u0663", "\u0664", "\uff14", "\u096a", "\u00e9", "\u00a0", "\u2028", "\u0130", "\u212a", "\u017f", "\u00df", "\u01c5", "\u2160", "\u00b2", "\ufeff", "\u200b", "\u65e5", "\U0001d7d8", "\x80", "\xff"}
 
 func TestC08Generated(t *testing.T) {
 	seedNote(t)
